@@ -139,7 +139,7 @@ theorem keeps_exactly (a : MatcherArgs) (t : Option TokObj) (toks : TokFn) (sim 
   rw [hrows]
   apply List.filterMap_congr
   intro cr _
-  exact matcherTableSpec_eq a t toks sim c l r hV.lKeyValid.1 hV.rKeyValid.1 cr
+  exact matcherTableSpec_eq a t toks sim c l r hV.lKeyValid.nodup hV.rKeyValid.nodup cr
 
 /-- Under the hypotheses of `keeps_exactly` both source rows of every candidate exist, so `rowSpec` is `pairSpec`
     of THE left row and THE right row carrying the candidate's keys. -/
